@@ -114,9 +114,12 @@ def make_classes(kind, log, ctl):
         class Node:
             def __init__(self, **kw):
                 body_init(self, kw)
-                self.__dict__.update(kw)
+                for k, v in kw.items():
+                    setattr(self, k, v)  # through the class's own __setattr__, as written by the user
 
             def __setattr__(self, k, v):
+                if k == "name":
+                    log.append(("user-setattr", v))
                 object.__setattr__(self, k, v)
 
             def __getattribute__(self, k):
@@ -128,9 +131,12 @@ def make_classes(kind, log, ctl):
         class Leaf:
             def __init__(self, **kw):
                 body_init(self, kw)
-                self.__dict__.update(kw)
+                for k, v in kw.items():
+                    setattr(self, k, v)
 
             def __setattr__(self, k, v):
+                if k == "name":
+                    log.append(("user-setattr", v))
                 object.__setattr__(self, k, v)
 
             def __getattribute__(self, k):
@@ -258,6 +264,12 @@ class World:
                         bad.append(("reference unresolved at init", e[2], repr(e[3].get("up"))))
                     if e[2] == "b" and e[3].get("val") != 3:
                         bad.append(("attribute value at init", e[2], e[3].get("val")))
+            if self.kind == "custom":
+                # the user's own __setattr__ is what stores 'name' in __init__: it must have been called for every object, in every file of the load
+                seen = {e[1] for e in self.log if e[0] == "user-setattr"}
+                missing = sorted(n for n in EXPECT if n not in seen)
+                if missing:
+                    bad.append(("user __setattr__ bypassed while the object was initialised", missing))
         fp = fingerprint(self.classes, self.originals)
         if not clean(fp):
             bad.append(("class state after load", fp))
